@@ -1,0 +1,229 @@
+//go:build verif
+
+package vgirpc
+
+import (
+	"fmt"
+	"time"
+)
+
+// Verification hooks for property C15 (token lifetime is enforced and the
+// call-state cache never changes outcomes). Add-only; compiled only with
+// -tags verif.
+//
+// TIME TRAVEL. The code under test reads the wall clock directly
+// (checkTokenAge: time.Since(time.Unix(CreatedAt,0)); callStateCache.get:
+// time.Now().After(expiresAt)) and every decision depends only on the
+// DIFFERENCE between the clock and a stored instant. The harness therefore
+// moves time by moving the stored instants: VerifC15Reseal re-seals a real
+// token with another CreatedAt through the real sealToken, and
+// VerifC15ShiftCache adds a delta to every cache entry's expiresAt. Nothing
+// here touches the decision code itself.
+
+// --- thin adapters: the only lines that name the real internals --------------
+
+func verifC15TokenTTL(h *HttpServer) time.Duration { return h.tokenTTL }
+func verifC15Cache(h *HttpServer) *callStateCache  { return h.callStates }
+func verifC15CheckAge(h *HttpServer, createdAt int64) error {
+	return h.checkTokenAge(createdAt)
+}
+
+// VerifC15Entry is one call-state cache entry as the harness sees it.
+type VerifC15Entry struct {
+	CallID    string
+	ExpiresAt time.Time
+}
+
+// VerifC15CacheDump lists the cache entries, most recently used first.
+// max is the configured capacity (<= 0: disabled), ttl the cache's own ttl.
+func VerifC15CacheDump(h *HttpServer) (entries []VerifC15Entry, max int, ttl time.Duration) {
+	c := verifC15Cache(h)
+	if c == nil {
+		return nil, 0, 0
+	}
+	c.mu.Lock()
+	defer c.mu.Unlock()
+	for el := c.order.Front(); el != nil; el = el.Next() {
+		e := el.Value.(*callStateEntry)
+		id := e.key
+		for i := 0; i < len(id); i++ { // key = callID ++ NUL ++ identity
+			if id[i] == 0 {
+				id = id[:i]
+				break
+			}
+		}
+		entries = append(entries, VerifC15Entry{CallID: id, ExpiresAt: e.expiresAt})
+	}
+	return entries, c.max, c.ttl
+}
+
+// VerifC15ShiftCache adds delta to every entry's expiresAt (the clock moved by -delta).
+func VerifC15ShiftCache(h *HttpServer, delta time.Duration) {
+	c := verifC15Cache(h)
+	if c == nil || delta == 0 {
+		return
+	}
+	c.mu.Lock()
+	defer c.mu.Unlock()
+	for el := c.order.Front(); el != nil; el = el.Next() {
+		e := el.Value.(*callStateEntry)
+		e.expiresAt = e.expiresAt.Add(delta)
+	}
+}
+
+// VerifC15TokenInfo is what a sealed token says about itself.
+type VerifC15TokenInfo struct {
+	CreatedAt int64
+	CallID    string
+	Method    string // call tokens only
+}
+
+// VerifC15Open opens a real token (kind "cursor" | "call", anonymous caller)
+// WITHOUT the age check and reports its fields.
+func VerifC15Open(h *HttpServer, kind string, tok []byte) (VerifC15TokenInfo, error) {
+	switch kind {
+	case "cursor":
+		var d cursorTokenData
+		if err := h.openToken(cursorTokenVersion, tok, stateTokenAad(nil), &d); err != nil {
+			return VerifC15TokenInfo{}, err
+		}
+		return VerifC15TokenInfo{CreatedAt: d.CreatedAt, CallID: d.CallID}, nil
+	case "call":
+		var d callTokenData
+		if err := h.openToken(callTokenVersion, tok, callTokenAad(nil), &d); err != nil {
+			return VerifC15TokenInfo{}, err
+		}
+		return VerifC15TokenInfo{CreatedAt: d.CreatedAt, CallID: d.CallID, Method: d.Method}, nil
+	}
+	return VerifC15TokenInfo{}, fmt.Errorf("verif: unknown token kind %q", kind)
+}
+
+// VerifC15Reseal opens a real token and seals the same payload again with
+// CreatedAt replaced, through the real sealToken (fresh nonce, same key, same
+// associated data). No cache is touched.
+func VerifC15Reseal(h *HttpServer, kind string, tok []byte, createdAt int64) ([]byte, error) {
+	switch kind {
+	case "cursor":
+		var d cursorTokenData
+		if err := h.openToken(cursorTokenVersion, tok, stateTokenAad(nil), &d); err != nil {
+			return nil, err
+		}
+		d.CreatedAt = createdAt
+		return h.sealToken(cursorTokenVersion, &d, stateTokenAad(nil))
+	case "call":
+		var d callTokenData
+		if err := h.openToken(callTokenVersion, tok, callTokenAad(nil), &d); err != nil {
+			return nil, err
+		}
+		d.CreatedAt = createdAt
+		return h.sealToken(callTokenVersion, &d, callTokenAad(nil))
+	}
+	return nil, fmt.Errorf("verif: unknown token kind %q", kind)
+}
+
+// VerifC15TTL reports the server's token ttl.
+func VerifC15TTL(h *HttpServer) time.Duration { return verifC15TokenTTL(h) }
+
+// verifC15Probe produces, by CALLING the real functions, the error message of
+// each refusal the continuation route can answer with. The harness classifies
+// a response by comparing its message with these (whole message, or for the
+// expiry message, whose tail carries the measured age, its constant head).
+type verifC15Msgs struct {
+	expiredHead, noCursor, noCall, badSig, mismatch string
+	ok                                              bool
+}
+
+func verifC15LCP(a, b string) string {
+	n := 0
+	for n < len(a) && n < len(b) && a[n] == b[n] {
+		n++
+	}
+	return a[:n]
+}
+
+func verifC15ProbeMsgs() (m verifC15Msgs) {
+	defer func() {
+		if recover() != nil { // never take the harness binary down
+			m.ok = false
+		}
+	}()
+	msg := func(err error) string {
+		if err == nil {
+			return ""
+		}
+		if re, ok := err.(*RpcError); ok {
+			return re.Message
+		}
+		return err.Error()
+	}
+	h := NewHttpServer(NewServer())
+	h.SetCallStateCacheEntries(0)
+	other := NewHttpServer(NewServer())
+	now := time.Now().Unix()
+	ttl := int64(verifC15TokenTTL(h) / time.Second)
+	e1 := msg(verifC15CheckAge(h, now-ttl-1000))
+	e2 := msg(verifC15CheckAge(h, now-ttl-2000003))
+	m.expiredHead = verifC15LCP(e1, e2)
+	cur := &cursorTokenData{CreatedAt: now, CallID: "aa"}
+	_, err := h.resolveCall(cur, nil, nil)
+	m.noCall = msg(err)
+	foreign, _ := other.sealToken(callTokenVersion, &callTokenData{CreatedAt: now, CallID: "aa"}, callTokenAad(nil))
+	_, err = h.resolveCall(cur, foreign, nil)
+	m.badSig = msg(err)
+	mine, _ := h.sealToken(callTokenVersion, &callTokenData{CreatedAt: now, CallID: "bb"}, callTokenAad(nil))
+	_, err = h.resolveCall(cur, mine, nil)
+	m.mismatch = msg(err)
+	m.ok = e1 != "" && e2 != "" && len(m.expiredHead) >= 8 && m.noCall != "" && m.badSig != "" && m.mismatch != "" &&
+		m.noCall != m.badSig && m.noCall != m.mismatch && m.badSig != m.mismatch
+	return m
+}
+
+var verifC15MsgsCache *verifC15Msgs
+
+// VerifC15Classify maps the message of a refused continuation to a class:
+// "expired" | "no_call" | "bad_call" | "mismatch" | "" (unknown).
+func VerifC15Classify(message string) string {
+	if verifC15MsgsCache == nil {
+		m := verifC15ProbeMsgs()
+		verifC15MsgsCache = &m
+	}
+	m := verifC15MsgsCache
+	if !m.ok {
+		return ""
+	}
+	// the wire renders an RpcError as "<Type>: <Message>"; accept the message with or
+	// without such a head
+	hasTail := func(probe string) bool {
+		return len(message) >= len(probe) && message[len(message)-len(probe):] == probe &&
+			(len(message) == len(probe) || message[len(message)-len(probe)-1] == ' ')
+	}
+	for i := 0; i+len(m.expiredHead) <= len(message) && i < 64; i++ {
+		if message[i:i+len(m.expiredHead)] == m.expiredHead && (i == 0 || message[i-1] == ' ') {
+			return "expired"
+		}
+	}
+	switch {
+	case hasTail(m.noCall):
+		return "no_call"
+	case hasTail(m.badSig):
+		return "bad_call"
+	case hasTail(m.mismatch):
+		return "mismatch"
+	}
+	return ""
+}
+
+func init() {
+	verifConstProviders = append(verifConstProviders, func() []VerifConst {
+		h := NewHttpServer(NewServer())
+		_, max, _ := VerifC15CacheDump(h)
+		fb := newCallStateCache(1, 0).ttl
+		return []VerifConst{
+			// the configuration a fresh HttpServer starts with, and the ttl
+			// newCallStateCache falls back to when handed ttl <= 0 (whole seconds)
+			verifNum("c15_default_ttl_s", int64(verifC15TokenTTL(h)/time.Second)),
+			verifNum("c15_default_entries", int64(max)),
+			verifNum("c15_fallback_ttl_s", int64(fb/time.Second)),
+		}
+	})
+}
